@@ -1040,6 +1040,18 @@ class Impl:
         save = None if kv["save"] == "-" else int(kv["save"])
         return oe, conds, exts, masks, save
 
+    def whole_array(self, f):
+        """a condition of select_cells is handed the layer's whole data array (so that it may compare with v.mean(), v.max(),
+        a percentile): this wrapper answers like `f` on the whole array and all-False on anything else (a sub-array of the
+        candidates that survived earlier filters)"""
+        np, dims = self.np, tuple(self.dims)
+
+        def cond(v):
+            r = f(v)
+            return r if np.shape(v) == dims else np.zeros(np.shape(v), dtype=bool)
+
+        return cond
+
     def select(self, w):
         np = self.np
         oe, conds, exts, masks, save = self.parse_select(w)
@@ -1055,7 +1067,7 @@ class Impl:
         cd = {}
         for name, cmp, t in conds:
             dt = self.dt_of(att[name]) if name in att else "int"
-            cd[name] = self.pred(dt, f"{cmp}:{t}")
+            cd[name] = self.whole_array(self.pred(dt, f"{cmp}:{t}"))
         ev = {name: {"hi": "highest", "lo": "lowest", "bad": "biggest"}[m] for name, m in exts}
         if not marrs:
             marg = None
